@@ -279,6 +279,28 @@ func runC15(c *Ctx, r *Report) {
 	}
 	r.Floor("C15.R3", 2)
 
+	// shared C09.R7: each input's macro bodies are evaluated under that input's context
+	if !r.Sub {
+		r.Rule("C09.R7", "(shared) the state that evaluates macro bodies gets the running state's Context on every call")
+		sub9 := NewReport("C09", r.Tier, c)
+		sub9.Sub = true
+		runC09(c, sub9)
+		n9 := 0
+		for _, o := range sub9.Obls {
+			if o.Rule != "C09.R7" {
+				continue
+			}
+			n9++
+			if o.status == FAIL {
+				r.Fail(o.Rule, o.Func, o.Desc, o.Pos, o.Reason, o.Path...)
+			} else {
+				r.Ok(o.Rule, o.Func, o.Desc, o.Pos)
+			}
+		}
+		if n9 < 3 {
+			r.Undecided("C15: only %d shared C09.R7 obligations", n9)
+		}
+	}
 	// shared C13.R7: a script evaluated whole and the same script fed statement by statement agree only if the
 	// definition sweep over a whole program looks at every statement
 	if !r.Sub {
